@@ -837,11 +837,10 @@ func TestVerifC15(t *testing.T) {
 			key := w.key()
 			mnu := w.menu(maxInj, maxGen)
 			if len(w.held) > 0 && !w.bad && !w.dead {
-				sk := key
-				if !c.Thorough() { // quick: one sweep per class of held frame x relay generation x slot set x replay context
-					_, slots := w.rSlots(w.net.byUDP[w.held[0].pkt.To.Addr()])
-					sk = fmt.Sprintf("%s d%d gen%d slots%d held%d last%v", w.class(w.held[0].inj), w.delivered(w.held[0].inj), w.gen, len(slots), len(w.held), w.last != nil)
-				}
+				// one sweep per class of held frame x relay generation x slot set x replay context (the rewrites only
+				// concern the endpoint's handling of this frame; other packets' delivery counts do not enter)
+				_, slots := w.rSlots(w.net.byUDP[w.held[0].pkt.To.Addr()])
+				sk := fmt.Sprintf("%s d%d gen%d slots%d held%d last%v", w.class(w.held[0].inj), w.delivered(w.held[0].inj), w.gen, len(slots), len(w.held), w.last != nil)
 				if !swept[sk] {
 					swept[sk] = true
 					w.sweep(c.Thorough())
